@@ -203,7 +203,7 @@ func init() {
 
 	register(&Rule{
 		Name:  "TAB-ascii",
-		Doc:   "the ASCII class tables (alpha, digit, octal digit, hex digit, alphanumeric, and the exported C0 control / C0 control or space tables; initialiser + init() loops) equal their definitions",
+		Doc:   "the ASCII class tables (alpha, digit, octal digit, hex digit, alphanumeric; initialiser + init() loops) equal their definitions (the exported C0 control / C0 control or space tables, which the module does not read, are compared for the record only)",
 		Props: []string{"C01", "C07"},
 		Floor: 4,
 		Run: func(c *Ctx, s *core.Sink) {
@@ -229,6 +229,16 @@ func init() {
 					continue
 				}
 				want := isetPoints(spec.Bitsets[n].Points...)
+				if n == "C0control" || n == "C0controlOrSpace" {
+					// exported for users, read by nothing in the module: no property of the parser depends on them, so
+					// the comparison is recorded and is not a verdict
+					fact := "inventory: = " + spec.Bitsets[n].Name + " (exported table that the module itself does not read)"
+					if !b.iset().equal(want) {
+						fact = "inventory: differs from " + spec.Bitsets[n].Name + ": " + diffString(b.iset(), want) + " (exported table that the module itself does not read: not a verdict)"
+					}
+					s.Obs = append(s.Obs, core.Obligation{Rule: s.Rule, Construct: key, Pos: objPos(c, o), Verdict: core.Discharged, Fact: fact, Props: props, Trivial: true})
+					continue
+				}
 				s.Check(b.iset().equal(want), key, objPos(c, o), "= "+spec.Bitsets[n].Name, "differs from "+spec.Bitsets[n].Name+": "+diffString(b.iset(), want), props...)
 			}
 		},
